@@ -29,6 +29,21 @@ theorem walk_finds_nested_calls (f : ν) (is : List (Instr ν)) : f ∈ callsL i
 
 example : (7 : Nat) ∈ callsL [.other, .block [.loop [.ite [.other] [.call 7]]]] := by decide
 
+/-- the walk does not stop at any instruction: whatever precedes a `call` (in particular a top-level
+or nested `return` / `unreachable` / `br`, all `.other`), the call after it is an edge — dead code
+is still printed, so `strip_valid_refs` needs its targets kept -/
+theorem walk_never_stops (f : ν) (pre post : List (Instr ν)) : f ∈ callsL (pre ++ .call f :: post) := by
+  induction pre with
+  | nil => simp [callsL, Instr.calls]
+  | cons i is ih => simp only [List.cons_append, callsL, List.mem_append]; exact Or.inr ih
+
+/-- `$main … return ; call $cleanup` with `$cleanup` referenced nowhere else (corpus/C06/dead_code_after_return.wat) -/
+def exDeadCode : Module Nat :=
+  { imports := [], funcs := [⟨1, [.other, .other, .call 2]⟩, ⟨2, []⟩, ⟨3, [.call 2]⟩],
+    start := none, exports := [⟨true, 1⟩], elems := [] }
+
+example : exDeadCode.strip.funcNames = [1, 2] := by decide
+
 /-! ## the marked set -/
 
 theorem mark_iff_reach {m : Module ν} (hwf : WF m) (x : ν) : x ∈ m.mark ↔ Reach m x :=
